@@ -19,6 +19,19 @@ META = {
         note=NOTE_COMMON + "Real Go panics / out-of-bounds reads are evidenced by the correspondence runs, not proved.",
         technique="Lean 4 theorems (induction, bit-vector extensionality) + regenerated tie + differential correspondence",
     ),
+    "C09": dict(
+        text="Full proof for the reader model: for every byte stream, maximum and chunking oracle the packets returned and the "
+             "class of the first error equal a chunk-independent reference reassembly (run_eq_reference, chunk_independent), "
+             "returned packets never exceed the maximum, the buffer capacity never exceeds 2*max+12348, packets of a stream "
+             "prefix are a prefix (prefix_monotone), and ids strictly increase except across message id 2^64-1 (partial; the "
+             "wrap is a listed finding with a counterexample theorem replayed on the code). The model follows reader.go after "
+             "the fix: commit 355cfda, found by this proof obligation. Tie: fingerprints + maxFrameOverhead regenerated from "
+             "source, differential runs of Reader.ReadPacketUsing over a scripted io.Reader comparing packets, error class and "
+             "cap(r.buf) after every call.",
+        design_ref="DESIGN.md §6 C09",
+        note=NOTE_COMMON + "io.Reader contract assumed (0<=n<=len(p), bytes in order).",
+        technique="Lean 4 theorems (induction on the stream, refinement to a chunk-independent reference) + regenerated tie + differential correspondence",
+    ),
 }
 
 _NYB = "check not built yet in this round (planned: Lean model + correspondence, see DESIGN.md §6)"
